@@ -62,6 +62,8 @@ def getv_op(K, rng):
     types = None
     if rng.random() < 0.5:
         types = subset(rng, pools.CI_VARIANT_TYPES, 0, 3)
+        if at != "top" and rng.random() < 0.3:
+            types = types + ["self"]        # the documented pseudo-type: the variant asked is included
     return {"op": "get_variants", "at": at, "arch": arch, "types": types, "recursive": rng.random() < 0.6}
 
 
